@@ -811,34 +811,36 @@ theorem sound_multiply (s : Sc) (carried : Option Rat) (S : St) (f : Fmt) (hp : 
       split at h
       · simp at h
       · split at h
-        · rename_i hclose
-          simp only [Option.some.injEq] at h
-          subst h
-          split at heq
-          · rename_i c pl hnodes
-            simp only [Option.some.injEq, Prod.mk.injEq] at heq
-            obtain ⟨hb, hf, hpv⟩ := heq
-            subst hf
-            subst hb
-            have hprev := hc c rfl
-            subst hprev
-            refine ⟨⟨out ++ [Val.num (c * w)], some (c * w), none⟩, ?_, rfl, ⟨[Val.num (c * w)], rfl, ?_⟩, by simp⟩
-            · simp only [List.nil_append, runW, Word.toEntry, step]
-            · rw [hnodes]
-              simp only [List.map_cons, List.map_nil, hpv, MatchL, Val.matches, and_true]
-              exact isclose_sound _ _ hclose
-          · rename_i a pn hnodes
-            simp only [Option.some.injEq, Prod.mk.injEq] at heq
-            obtain ⟨hb, hf, hpv⟩ := heq
-            subst hf
-            refine ⟨⟨out ++ [Val.num b] ++ [Val.num (b * w)], some (b * w), none⟩, ?_, rfl,
-              ⟨[Val.num b, Val.num (b * w)], by simp, ?_⟩, by simp⟩
-            · simp only [List.cons_append, List.nil_append, runW, Word.toEntry, hb, Option.map_some, step]
-            · rw [hnodes]
-              simp only [List.map_cons, List.map_nil, hpv, hb, MatchL, Val.matches, and_true]
-              exact ⟨isClose_refl b, isclose_sound _ _ hclose⟩
-          · simp at heq
         · simp at h
+        · split at h
+          · rename_i hclose
+            simp only [Option.some.injEq] at h
+            subst h
+            split at heq
+            · rename_i c pl hnodes
+              simp only [Option.some.injEq, Prod.mk.injEq] at heq
+              obtain ⟨hb, hf, hpv⟩ := heq
+              subst hf
+              subst hb
+              have hprev := hc c rfl
+              subst hprev
+              refine ⟨⟨out ++ [Val.num (c * w)], some (c * w), none⟩, ?_, rfl, ⟨[Val.num (c * w)], rfl, ?_⟩, by simp⟩
+              · simp only [List.nil_append, runW, Word.toEntry, step]
+              · rw [hnodes]
+                simp only [List.map_cons, List.map_nil, hpv, MatchL, Val.matches, and_true]
+                exact isclose_sound _ _ hclose
+            · rename_i a pn hnodes
+              simp only [Option.some.injEq, Prod.mk.injEq] at heq
+              obtain ⟨hb, hf, hpv⟩ := heq
+              subst hf
+              refine ⟨⟨out ++ [Val.num b] ++ [Val.num (b * w)], some (b * w), none⟩, ?_, rfl,
+                ⟨[Val.num b, Val.num (b * w)], by simp, ?_⟩, by simp⟩
+              · simp only [List.cons_append, List.nil_append, runW, Word.toEntry, hb, Option.map_some, step]
+              · rw [hnodes]
+                simp only [List.map_cons, List.map_nil, hpv, hb, MatchL, Val.matches, and_true]
+                exact ⟨isClose_refl b, isclose_sound _ _ hclose⟩
+            · simp at heq
+          · simp at h
     · simp at h
 
 theorem lin_alg (b e D k : Rat) : b + (e - b) / D * k = b + (e - b) * k / D := by grind
